@@ -8,6 +8,7 @@ impl num_bigint::BigInt {
     #[verifier::external_body]
     pub fn to_signed_bytes_be(&self) -> (r: Vec<u8>)
         ensures r@.len() >= 1, be_signed(r@) == bi(*self),
+            r@.len() * 8 <= usize::MAX, // num-bigint keeps the bit length in a u64
             bi(*self) == 0 ==> r@ == seq![0u8],
             bi(*self) != 0 ==> is_min_signed(r@),
     { unimplemented!() }
